@@ -131,7 +131,23 @@ def gen_pair(g):
 # ----------------------------------------------------------------------------------------------
 # C01 / C15 : compose
 # ----------------------------------------------------------------------------------------------
+def _badly_scaled(*contracts):
+    """do the coefficients of these contracts span six orders of magnitude or more?  (the LP solver works with absolute
+    tolerances around 1e-7..1e-9: on such rows its answers can be wrong - known finding)"""
+    mags = [abs(float(v)) for c in contracts for tl in (c.a, c.g) for t in tl.terms for v in t.variables.values() if v != 0]
+    return bool(mags) and max(mags) / min(mags) >= 1e6
+
+
+# witnesses of the known finding "LP answers on badly scaled rows" (always run, so that the finding is printed on every run)
+PINNED_COMPOSE = [
+    {"op": "compose", "wiring": "pinned_cascade", "c1": {"in": [], "out": ["y"], "a": [], "g": [[{"y": -20000.0}, -20000.0]]}, "c2": {"in": ["y"], "out": ["z"], "a": [], "g": [[{"z": 1.0, "y": -0.001}, 0.0]]}, "keep": [], "simplify": True, "order": [1, 2, 3, 4, 5], "swap": False},
+    {"op": "compose", "wiring": "pinned_tiny_coefficient", "c1": {"in": ["x"], "out": ["p"], "a": [[{"x": 1.0}, 1.0]], "g": [[{"p": 1.0, "x": -1.0}, 0.0]]}, "c2": {"in": ["w"], "out": ["z"], "a": [[{"w": 1e-9}, 1e-8]], "g": [[{"z": 1.0, "w": -1.0}, 0.0]]}, "keep": [], "simplify": True, "order": [1, 2, 3, 4, 5], "swap": False},
+]
+
+
 def compose_build(seed, tier):
+    if seed % 1000003 < len(PINNED_COMPOSE):
+        return json.loads(json.dumps(PINNED_COMPOSE[seed % 1000003]))
     g = Gen(seed)
     r = g.r
     w, c1, c2 = gen_pair(g)
@@ -191,7 +207,7 @@ def compose_eval(p):
     if m == "unknown":
         out["stats"]["oracle_unknown"] = 1
     elif m is not None:
-        viol.append(("C01", "unsound" + (":tactic5" if 5 in used else ""), "composition result is not a sound abstraction (tactics used %s); point %s" % (used, m)))
+        viol.append(("C01", "unsound" + (":tactic5" if 5 in used else (":badly_scaled_lp" if _badly_scaled(c1, c2) else "")), "composition result is not a sound abstraction (tactics used %s); point %s" % (used, m)))
     # C15: interface-level guarantees still enforced
     iface = exp_in | exp_out
     keepers = [t for t in list(c1.g.terms) + list(c2.g.terms) if {v.name for v in t.vars} <= iface]
@@ -310,7 +326,7 @@ def quotient_eval(p):
     if m == "unknown":
         out["stats"]["oracle_unknown"] = 1
     elif m is not None:
-        viol.append(("C02", "unsound" + (":tactic5" if 5 in used else ""), "quotient composed with the divisor does not refine the dividend (tactics used %s); point %s" % (used, m)))
+        viol.append(("C02", "unsound" + (":tactic5" if 5 in used else (":badly_scaled_lp" if _badly_scaled(c, c1) else "")), "quotient composed with the divisor does not refine the dividend (tactics used %s); point %s" % (used, m)))
     if viol:
         prop, key, what = viol[0]
         out["violation"] = {"key": "%s:quotient:%s" % (prop, key), "prop": prop, "what": what, "input": p, "monitor": "m_algebra", "fn": "quotient_eval", "all": [list(v) for v in viol]}
@@ -324,7 +340,15 @@ def quotient_case(seed, tier):
 # ----------------------------------------------------------------------------------------------
 # C04 : elimination
 # ----------------------------------------------------------------------------------------------
+PINNED_ELIM = [
+    # tactic 2 on a badly scaled LP: HiGHS answers "optimal" for min -0.001 y s.t. -20000 y <= -20000, which is unbounded
+    {"op": "elim", "kind": "pinned_badly_scaled", "terms": [[{"z": 1.0, "y": -0.001}, 0.0]], "context": [[{"y": -20000.0}, -20000.0]], "elim": ["y"], "refine": False, "simplify": False, "order": [1, 2, 3, 4]},
+]
+
+
 def elim_build(seed, tier):
+    if seed % 1000003 < len(PINNED_ELIM):
+        return json.loads(json.dumps(PINNED_ELIM[seed % 1000003]))
     g = Gen(seed)
     r = g.r
     names = ["x", "y", "z", "u", "v", "w"][: r.randint(2, 6)]
@@ -411,6 +435,10 @@ def elim_eval(p):
     if (json.dumps(tl_data(S)), json.dumps(tl_data(G))) != snap:
         viol.append(("C13", "operands_modified", "elimination modified an operand"))
     tag = ":tactic5" if 5 in used else ""
+    if not tag:
+        mags = [abs(float(v)) for tl in (S, G) for t in tl.terms for v in t.variables.values() if v != 0]
+        if mags and max(mags) / min(mags) >= 1e6:
+            tag = ":badly_scaled_lp"
     if p["refine"]:
         m = implies_exact([G, R], S)
         if m not in (None, "unknown"):
@@ -621,7 +649,14 @@ def simplify_case(seed, tier):
 # ----------------------------------------------------------------------------------------------
 # C08 : merge (polyhedral instance)
 # ----------------------------------------------------------------------------------------------
+PINNED_MERGE = [
+    {"op": "merge", "c1": {"in": ["w"], "out": ["z"], "a": [], "g": [[{"z": 100000.0}, 0.0]]}, "c2": {"in": ["w"], "out": ["z"], "a": [], "g": [[{"z": 0.00002, "w": -0.000000001}, 0.0]]}, "swap": False},
+]
+
+
 def merge_build(seed, tier):
+    if seed % 1000003 < len(PINNED_MERGE):
+        return json.loads(json.dumps(PINNED_MERGE[seed % 1000003]))
     g = Gen(seed)
     r = g.r
     shared_in = ["i0"] if r.random() < 0.7 else []
@@ -674,6 +709,8 @@ def merge_eval(p):
             break
     if viol:
         prop, key, what = viol[0]
+        if key == "not_exact" and _badly_scaled(c1, c2):
+            key += ":badly_scaled_lp"
         out["violation"] = {"key": "%s:merge:%s" % (prop, key), "prop": prop, "what": what, "input": p, "monitor": "m_algebra", "fn": "merge_eval"}
     return out
 
